@@ -90,6 +90,13 @@ class Ctx:
             self._lock = None
 
     def regen(self):
+        # hand-written sources with «string» literals -> .v
+        ins = []
+        for d in ("Model", "Proofs", "Props"):
+            dd = os.path.join(COQ, d)
+            ins += [os.path.join(dd, f) for f in sorted(os.listdir(dd)) if f.endswith(".v.in")]
+        if ins:
+            sh(["python3", os.path.join(VERIF, "tools", "strlit.py")] + ins, timeout=120)
         rc, out = sh([PY, os.path.join(VERIF, "tools", "gen_tables.py")], timeout=600)
         self.log(out.strip().splitlines()[-1] if out.strip() else "gen_tables: no output")
         if rc != 0:
@@ -197,6 +204,8 @@ class Ctx:
         """Evaluate `check_fn : case_type -> bool` on every case inside Coq (vm_compute).
         cases: list of Coq terms (strings).  Returns the list of indices whose check is false.
         Raises RuntimeError when coqc itself fails (model or printer broken)."""
+        if not cases:
+            return []
         if os.path.isdir(self.case_dir) and not getattr(self, "_cleaned", False):
             shutil.rmtree(self.case_dir, ignore_errors=True)
         self._cleaned = True
